@@ -17,8 +17,8 @@ WS = None
 
 
 def _hook(v, val):
-    if isinstance(v, T) and v.op == 'call' and v.args[0] in ('re.sub',
-                                                             're.subn'):
+    if isinstance(v, T) and v.op == 'call' and v.args[0] in (
+            're.sub', 're.subn', 're.Pattern.sub', 're.Pattern.subn'):
         hooks = [_hook]
         rx = v.args[1]
         repl = ev(v.args[2], val, hooks)
@@ -28,7 +28,7 @@ def _hook(v, val):
         else:
             c = re.compile(ev(rx, val, hooks))
         try:
-            return getattr(c, v.args[0][3:])(repl, s)
+            return getattr(c, v.args[0].rsplit('.', 1)[1])(repl, s)
         except re.error:
             raise Raised('re.error')
         except TypeError:
@@ -69,8 +69,10 @@ class Pipeline:
 
         def setup(interp):
             interp.decide = decide
-            interp.pure_calls.update({'re.sub', 're.subn'})
+            interp.pure_calls.update({'re.sub', 're.subn', 're.Pattern.sub',
+                                      're.Pattern.subn'})
             interp.ret_types['re.subn'] = 'tuple'
+            interp.ret_types['re.Pattern.subn'] = 'tuple'
             interp.types[MSG] = 'str'
             interp.types[SECRET] = 'str'
         outs, _i = extract(world, thunk, setup=setup, max_paths=512)
@@ -96,9 +98,9 @@ def _is_message(t):
     """message or a rebinding of it (str(message), re.sub(..., message))."""
     if t == MSG:
         return True
-    if isinstance(t, T) and t.op == 'call' and t.args[0] in ('re.sub',
-                                                             're.subn',
-                                                             'str'):
+    if isinstance(t, T) and t.op == 'call' and t.args[0] in (
+            're.sub', 're.subn', 're.Pattern.sub', 're.Pattern.subn',
+            'str'):
         return _is_message(t.args[-1])
     if isinstance(t, T) and t.op == 'item':
         return _is_message(t.args[0])
@@ -268,8 +270,10 @@ def _shapes(ctx):
                               ('_FORMAT_PATTERNS_WILDCARD', 'w')):
         templates = world.const(MOD, tmpl_name)
         for i, tmpl in enumerate(templates):
-            key = 'template %s' % tmpl
             pattern = tmpl % {'key': 'password'}
+            key = 'template for %s' % (
+                'dict/JSON values containing quotes (wildcard family)'
+                if family == 'w' else template_id(pattern, flags))
             tree = R.parse(pattern, flags)
             try:
                 g1, value, g2 = _value_node(tree)
@@ -320,6 +324,23 @@ def _shapes(ctx):
             rep.case({'template': tmpl, 'kind': kind,
                       'excluded': ''.join(chr(c) for c in sorted(excluded)
                                           if c < 128)}, ('shape', tmpl))
+
+
+def template_id(pattern, flags):
+    """Position- and syntax-independent name of a template: the supported
+    renderings (section of the property statement) it matches."""
+    try:
+        rx = re.compile(pattern, flags)
+    except re.error:
+        return 'uncompilable %r' % pattern
+    hits = []
+    for rname, msg, _want in renderings('password', 'abc', '***'):
+        m = rx.search(msg)
+        if m and 'abc' in m.group(0):
+            hits.append(rname)
+    if not hits:
+        return 'no supported rendering (%s)' % pattern
+    return ' | '.join(hits)
 
 
 def _key_then_digits(body, key, flags):
